@@ -26,4 +26,33 @@ case "$id" in
   *) echo "unknown property $id"; exit 2 ;;
 esac
 rc=$?
+# Supplementary (thorough tier of C14/C19): the goroutine-based Node API under the Go race
+# detector. A data race is reported in the evidence, not as a violation; a panic or diverging
+# committed sequences in that workload is a violation of C14.
+if [ "$tier" = thorough ] && { [ "$id" = C14 ] || [ "$id" = C19 ]; } && [ $rc -eq 0 ]; then
+  mkdir -p work; rm -f work/race-$id.* work/racewl-$id.log
+  (cd harness && GORACE="halt_on_error=0 exitcode=0 log_path=$V/work/race-$id" go test -race -count=6 -timeout 15m ./racewl/ > "$V/work/racewl-$id.log" 2>&1)
+  rrc=$?
+  nraces=$(cat work/race-$id.* 2>/dev/null | grep -c "WARNING: DATA RACE")
+  python3 - "$V/evidence/$id.json" "$rrc" "$nraces" <<'PY'
+import json, sys
+p, rrc, n = sys.argv[1], int(sys.argv[2]), int(sys.argv[3])
+try:
+    e = json.load(open(p))
+    e["coverage"]["supplementary_node_api_race_workload"] = {"runs": 6, "go_test_exit": rrc, "data_race_reports": n,
+        "what": "3 nodes, StartNode, 9 client goroutines (Propose/ReadIndex/Status/ReportUnreachable/TransferLeadership), lossy in-memory transport, go test -race; committed sequences compared"}
+    json.dump(e, open(p, "w"), indent=1)
+except Exception as ex:
+    print("could not annotate evidence:", ex)
+PY
+  echo "race workload: go test exit=$rrc data-race reports=$nraces"
+  if [ $rrc -ne 0 ]; then
+    if grep -q "^panic:\|applied .* at position\|^--- FAIL" work/racewl-$id.log; then
+      echo "VIOLATION property=C14 replay=$V/work/racewl-$id.log"
+      [ "$id" = C14 ] && rc=1
+    else
+      echo "INCONCLUSIVE: race workload did not run (see work/racewl-$id.log)"
+    fi
+  fi
+fi
 exit $rc
